@@ -125,8 +125,22 @@ func (mq *MessageQueue) buildMessage(size uint64, buildMessageFn func(*Builder))
 		mq.builders = append(mq.builders, NewBuilder(ctx, topic))
 	}
 	builder := mq.builders[len(mq.builders)-1]
+	builder.reserved += size
 	buildMessageFn(builder)
-	return !builder.Empty()
+	if builder.Empty() {
+		// nothing was added (the response was closed in the meantime): nothing will be sent,
+		// so what was reserved for this builder is given back now
+		mq.releaseReserved(builder)
+		return false
+	}
+	return true
+}
+
+func (mq *MessageQueue) releaseReserved(builder *Builder) {
+	if builder.reserved > 0 {
+		_ = mq.allocator.ReleaseBlockMemory(mq.p, builder.reserved)
+		builder.reserved = 0
+	}
 }
 
 func shouldBeginNewResponse(builders []*Builder, blkSize uint64) bool {
@@ -220,10 +234,12 @@ func (mq *MessageQueue) extractOutgoingMessage() (gsmsg.GraphSyncMessage, intern
 		default:
 		}
 	}
-	mq.buildersLk.Unlock()
 	if builder.Empty() {
+		mq.releaseReserved(builder)
+		mq.buildersLk.Unlock()
 		return gsmsg.GraphSyncMessage{}, internalMetadata{}, errEmptyMessage
 	}
+	mq.buildersLk.Unlock()
 	return builder.build(mq.eventPublisher)
 }
 
@@ -289,10 +305,18 @@ func (mq *MessageQueue) scrubResponses(requestIDs []graphsync.RequestID) uint64 
 	newBuilders := make([]*Builder, 0, len(mq.builders))
 	totalFreed := uint64(0)
 	for _, builder := range mq.builders {
-		totalFreed = builder.ScrubResponses(requestIDs)
-		if !builder.Empty() {
+		freed := builder.ScrubResponses(requestIDs)
+		if builder.Empty() {
+			// the builder is dropped: whatever is still reserved for it goes too
+			freed = builder.reserved
+		} else {
 			newBuilders = append(newBuilders, builder)
 		}
+		if freed > builder.reserved {
+			freed = builder.reserved
+		}
+		builder.reserved -= freed
+		totalFreed += freed
 	}
 	mq.builders = newBuilders
 	mq.buildersLk.Unlock()
